@@ -23,8 +23,8 @@ LABEL_FLOORS = {'J>=2': 0.4}
 def plan(tier):
     if tier == 'quick':
         return [{'n': 200} for _ in range(8)]
-    units = [{'n': 12, 'wave': w, 'J': J} for w in dwtu.WAVES for J in (1, 2, 3, 4)]
-    units += [{'n': 400} for _ in range(16)]
+    units = [{'n': 50, 'wave': w, 'J': J} for w in dwtu.WAVES for J in (1, 2, 3, 4)]
+    units += [{'n': 3000} for _ in range(16)]
     return units
 
 
